@@ -4,9 +4,11 @@ import (
 	"encoding/binary"
 	"fmt"
 	"math"
+	"reflect"
 	"sort"
 	"strconv"
 	"strings"
+	"sync"
 
 	"github.com/CrowdStrike/csproto"
 	gogoproto "github.com/gogo/protobuf/proto"
@@ -87,6 +89,9 @@ func toGo(fl string, pointers bool, k xkind, code int64) interface{} {
 		case xkStr:
 			return strconv.FormatInt(code, 10)
 		case xkBytes:
+			if code == 0 {
+				return []byte{} // present and empty (not nil)
+			}
 			return binary.BigEndian.AppendUint64(nil, uint64(code))
 		case xkBool:
 			return code == 1
@@ -114,6 +119,9 @@ func toGo(fl string, pointers bool, k xkind, code int64) interface{} {
 		}
 		return s
 	case xkBytes:
+		if code == 0 {
+			return []byte{}
+		}
 		return binary.BigEndian.AppendUint64(nil, uint64(code))
 	case xkBool:
 		b := code == 1
@@ -159,6 +167,12 @@ func fromGo(v interface{}) string {
 		n, _ := strconv.ParseInt(*x, 10, 64)
 		return hx.I(n)
 	case []byte:
+		if x == nil {
+			return "?nil-bytes"
+		}
+		if len(x) == 0 {
+			return hx.I(0)
+		}
 		if len(x) != 8 {
 			return "?len"
 		}
@@ -196,7 +210,11 @@ func fromGo(v interface{}) string {
 	return fmt.Sprintf("?%T", v)
 }
 
-func setupExts() {
+var setupExtsOnce sync.Once
+
+func setupExts() { setupExtsOnce.Do(setupExtsImpl) }
+
+func setupExtsImpl() {
 	fdp := &descriptorpb.FileDescriptorProto{
 		Name:       proto.String("verif/ext.proto"),
 		Package:    proto.String("verif.ext"),
@@ -543,6 +561,28 @@ func streamC12(r *hx.Rng) {
 					}
 				}
 			case "has", "get":
+				if accepted && o.typ == "get" && (rc.rt == "google" || rc.rt == "gogo") {
+					// the very value the owning runtime's own GetExtension hands out: same Go type, same nil-ness
+					shape := func(v interface{}, err error) string {
+						rv := reflect.ValueOf(v)
+						isNil := v == nil || ((rv.Kind() == reflect.Ptr || rv.Kind() == reflect.Slice || rv.Kind() == reflect.Interface || rv.Kind() == reflect.Map) && rv.IsNil())
+						return fmt.Sprintf("%T nil=%v err=%v", v, isNil, err != nil)
+					}
+					var own string
+					if rc.rt == "google" {
+						own = guard(func() string {
+							return shape(proto.GetExtension(m.(proto.Message), d.(protoreflect.ExtensionType)), nil)
+						})
+					} else {
+						own = guard(func() string {
+							return shape(gogoproto.GetExtension(m.(gogoproto.Message), d.(*gogoproto.ExtensionDesc)))
+						})
+					}
+					got := guard(func() string { return shape(csproto.GetExtension(m, d)) })
+					if got != own {
+						fail("GetExtension hands out something else than the owning runtime's own GetExtension", cs, own, got, "ext-get-shape")
+					}
+				}
 				if !accepted && o.typ == "has" && out != "bool:false" {
 					fail("HasExtension with a descriptor of another runtime is not false", cs, "false", out, "ext-mismatch")
 				}
